@@ -9,6 +9,7 @@ import (
 	"fmt"
 	"net/http"
 	"net/http/httptest"
+	"net/url"
 	"strings"
 	"testing"
 	"testing/synctest"
@@ -153,6 +154,11 @@ func c04GenRequests(t *rapid.T, services []vfSvcSpec) []c04Req {
 		}
 		for _, p := range s.normPrefixes() {
 			paths = append(paths, p, p+"/", p+"x", p+"/x", p+"//x", strings.TrimSuffix(p, "a"), p+"ary/z")
+			if len(p) > 1 {
+				// the same paths with an octet of the prefix percent-encoded: routing is by the decoded path
+				enc := fmt.Sprintf("%s%%%02X%s", p[:1], p[1], p[2:])
+				paths = append(paths, enc, enc+"/x", fmt.Sprintf("%s%%%02x/y", p[:len(p)-1], p[len(p)-1]))
+			}
 		}
 	}
 	hosts = append(hosts, "", "localhost", "a", "127.0.0.1", "127.0.0.1:80", "[::1]", "[::1]:8080", "zz.example.com", "a.:80")
@@ -299,8 +305,12 @@ func c04Run(t *testing.T, p c04Plan) (res vfResult) {
 		boundary := false
 		shared := c04SharedLevel(p.Services)
 		for _, rq := range p.Requests {
-			want, wantPrefix := vfRefRoute(p.Services, rq.Host, rq.Path)
-			if c04IsBoundary(p.Services, rq, want, wantPrefix) {
+			decoded := rq.Path
+			if u, err := url.ParseRequestURI(rq.Path); err == nil {
+				decoded = u.Path
+			}
+			want, wantPrefix := vfRefRoute(p.Services, rq.Host, decoded)
+			if c04IsBoundary(p.Services, c04Req{Host: rq.Host, Path: decoded}, want, wantPrefix) || decoded != rq.Path {
 				boundary = true
 			}
 			for _, rn := range []string{"in-order", "permuted", "restored"} {
